@@ -14,7 +14,8 @@
 From CJ Require Import Base Dbl Heap Forest ForestLemmas CoreSpec CoreDefs CoreRefineBase CoreRefine
   CoreRefineDelete CoreRefineReplace CoreRefineMore CoreRefineFrame CoreRefineHistory CoreRefineObject
   CoreRefineByKey CoreRefineAddObject CoreRefineHistoryObj CoreRefineHistoryObjEx CoreRefineReplaceKey
-  CoreRefineReplaceKeyAbs CoreRefineCreate CoreRefineSet CoreRefineRef CoreLedgerGen CoreHistoryAllSteps.
+  CoreRefineReplaceKeyAbs CoreRefineCreate CoreRefineSet CoreRefineRef CoreRefineArray CoreLedgerGen CoreHistoryAllSteps
+  CoreHistoryAllArr CoreHistoryAllArrStep.
 From CJ.gen Require Import Constants.
 From Coq Require Import Floats.SpecFloat.
 From stdpp Require Import gmap.
@@ -52,7 +53,11 @@ Inductive op3 : Type :=
 | OAddToObject (k : created) (object name : ptr)     (* cJSON_Add{Null,True,False,Bool,Number,String,Raw,Object,Array}ToObject *)
 | OHasObjectItem (object name : ptr)
 | OGetStringValue (item : ptr)
-| OGetNumberValue (item : ptr).
+| OGetNumberValue (item : ptr)
+| OCreateIntArray (numbers : option (list Z)) (count : Z)
+| OCreateFloatArray (numbers : option (list dbl)) (count : Z)   (* each float given as the double it converts to *)
+| OCreateDoubleArray (numbers : option (list dbl)) (count : Z)
+| OCreateStringArray (strings : option (list ptr)) (count : Z).
 
 Inductive res3 : Type := R (r : res) | RDbl (x : dbl).
 
@@ -102,6 +107,10 @@ Definition run_op3 (o : op3) : M res3 :=
   | OHasObjectItem ob n => b <~ cJSON_HasObjectItem ob n ;; ret (R (RBool b))
   | OGetStringValue x => q <~ cJSON_GetStringValue x ;; ret (R (RPtr q))
   | OGetNumberValue x => v <~ cJSON_GetNumberValue x ;; ret (RDbl v)
+  | OCreateIntArray l c => q <~ cJSON_CreateIntArray nv l c ;; ret (R (RPtr q))
+  | OCreateFloatArray l c => q <~ cJSON_CreateFloatArray nv l c ;; ret (R (RPtr q))
+  | OCreateDoubleArray l c => q <~ cJSON_CreateDoubleArray nv l c ;; ret (R (RPtr q))
+  | OCreateStringArray l c => q <~ cJSON_CreateStringArray nv l c ;; ret (R (RPtr q))
   end.
 
 (** * the list model *)
@@ -121,7 +130,7 @@ Definition spec_created (S : astate2) (k : created) : astate2 * ptr :=
   | KArray => typed c_cJSON_Array
   end.
 Definition pre_created (S : astate2) (k : created) : Prop :=
-  match k with KString s | KRaw s => name_ok S s | _ => True end.
+  match k with KString s | KRaw s => s = None \/ name_ok S s | _ => True end.
 
 (** add [item] to [object] under an owned copy of [name]; on refusal [item] is deleted again:
     results [yes] / [no] *)
@@ -132,6 +141,19 @@ Definition pre_add_or_delete (S1 : astate2) (item object name : ptr) : Prop :=
   pre_ok2 S1 (OAddObj object name item false) /\
   (res_bool (s2 S1 (OAddObj object name item false)).2 = false ->
    pre_ok2 (s2 S1 (OAddObj object name item false)).1 (OArr (ODelete item))).
+
+(** the bulk constructors: NULL for a NULL array or a negative count, else the array *)
+Definition spec_bulk {A} (S : astate2) (arg : option (list A)) (count : Z) (f : list A -> astate2 * ptr) : astate2 * res3 :=
+  match arg with
+  | None => (S, R (RPtr None))
+  | Some l => if count <? 0 then (S, R (RPtr None)) else ((f l).1, R (RPtr (f l).2))
+  end.
+(** the caller's array holds at least [count] elements *)
+Definition pre_bulk {A} (arg : option (list A)) (count : Z) (P : list A -> Prop) : Prop :=
+  match arg with
+  | None => True
+  | Some l => count < 0 \/ ((Z.to_nat count <= length l)%nat /\ P l)
+  end.
 
 Definition spec_step3 (S : astate2) (o : op3) : astate2 * res3 :=
   match o with
@@ -165,6 +187,9 @@ Definition spec_step3 (S : astate2) (o : op3) : astate2 * res3 :=
   | OHasObjectItem ob n => (S, R (RBool (negb (is_null (res_ptr (s2 S (OGetKey ob n false)).2)))))
   | OGetStringValue x => (S, R (RPtr (spec_get_string_value S x)))
   | OGetNumberValue x => (S, RDbl (spec_get_number_value S x))
+  | OCreateIntArray l c => spec_bulk S l c (fun ints => spec_number_array S (dbl_of_int <$> ints) c)
+  | OCreateFloatArray l c | OCreateDoubleArray l c => spec_bulk S l c (fun vals => spec_number_array S vals c)
+  | OCreateStringArray l c => spec_bulk S l c (fun strs => spec_string_array S strs c)
   end.
 
 (** * the documented ownership rules *)
@@ -172,7 +197,7 @@ Definition pre_ok3 (S : astate2) (o : op3) : Prop :=
   match o with
   | O2 o => pre_ok2 S o
   | OCreateNumber _ | OCreateStringReference _ | OCreateObjectReference _ | OCreateArrayReference _ => True
-  | OCreateString s | OCreateRaw s => name_ok S s
+  | OCreateString s | OCreateRaw s => s = None \/ name_ok S s
   | OAddItemReferenceToArray a i =>
       a = None \/ (ref_target S i /\ pre_ok2 (spec_create_ref S i).1 (OArr (OAdd a (spec_create_ref S i).2)))
   | OAddItemReferenceToObject ob n i =>
@@ -183,6 +208,9 @@ Definition pre_ok3 (S : astate2) (o : op3) : Prop :=
   | OSetValuestring x v => pre_set_valuestring S x v
   | OAddToObject k ob n => pre_created S k /\ pre_add_or_delete (spec_created S k).1 (spec_created S k).2 ob n
   | OHasObjectItem ob n => pre_ok2 S (OGetKey ob n false)
+  | OCreateIntArray l c => pre_bulk l c (fun _ => True)
+  | OCreateFloatArray l c | OCreateDoubleArray l c => pre_bulk l c (fun _ => True)
+  | OCreateStringArray l c => pre_bulk l c (fun strs => strings_ok S strs c)
   end.
 
 (** * one call *)
@@ -219,7 +247,7 @@ Theorem step_sim3 h S o :
   exists h', run_op3 o h = Ret ((spec_step3 S o).2, h') /\ Abs3 h' (spec_step3 S o).1.
 Proof.
   intros HA Hpre. revert h HA. change (Step (run_op3 o) S (spec_step3 S o).1 (spec_step3 S o).2).
-  destruct o as [o|n|s|s|s|c|c|a i|ob n i|ob n r cs|x n|x z|x b|x v|k ob n|ob n|x|x];
+  destruct o as [o|n|s|s|s|c|c|a i|ob n i|ob n r cs|x n|x z|x b|x v|k ob n|ob n|x|x|l c|l c|l c|l c];
     cbn [run_op3 spec_step3 pre_ok3] in *; cbn zeta.
   - apply (Step_wrap R). by apply Step_op2.
   - apply (Step_wrap (fun q => R (RPtr q))). apply Step_CreateNumber.
@@ -253,6 +281,34 @@ Proof.
     eapply Step_bind; [by apply Step_get_object_item|]. apply Step_ret.
   - apply (Step_wrap (fun q => R (RPtr q))). by apply Step_GetStringValue.
   - apply (Step_wrap RDbl). by apply Step_GetNumberValue.
+  - (* cJSON_CreateIntArray *)
+    unfold spec_bulk. destruct l as [l|]; cbn [pre_bulk] in *.
+    2:{ apply (Step_wrap (fun q => R (RPtr q))). apply Step_same. intros h _. by apply create_array_of_refused; right. }
+    destruct (Z.ltb_spec c 0) as [Hlt|Hge]; cbn [fst snd].
+    { apply (Step_wrap (fun q => R (RPtr q))). apply Step_same. intros h _. by apply create_array_of_refused; left. }
+    destruct Hpre as [?|[Hlen _]]; [lia|]. apply (Step_wrap (fun q => R (RPtr q))).
+    apply (Step_number_array dbl_of_int S l c Hge Hlen).
+  - (* cJSON_CreateFloatArray *)
+    unfold spec_bulk. destruct l as [l|]; cbn [pre_bulk] in *.
+    2:{ apply (Step_wrap (fun q => R (RPtr q))). apply Step_same. intros h _. by apply create_array_of_refused; right. }
+    destruct (Z.ltb_spec c 0) as [Hlt|Hge]; cbn [fst snd].
+    { apply (Step_wrap (fun q => R (RPtr q))). apply Step_same. intros h _. by apply create_array_of_refused; left. }
+    destruct Hpre as [?|[Hlen _]]; [lia|]. apply (Step_wrap (fun q => R (RPtr q))).
+    pose proof (Step_number_array (fun v : dbl => v) S l c Hge Hlen) as H. by rewrite list_fmap_id in H.
+  - (* cJSON_CreateDoubleArray *)
+    unfold spec_bulk. destruct l as [l|]; cbn [pre_bulk] in *.
+    2:{ apply (Step_wrap (fun q => R (RPtr q))). apply Step_same. intros h _. by apply create_array_of_refused; right. }
+    destruct (Z.ltb_spec c 0) as [Hlt|Hge]; cbn [fst snd].
+    { apply (Step_wrap (fun q => R (RPtr q))). apply Step_same. intros h _. by apply create_array_of_refused; left. }
+    destruct Hpre as [?|[Hlen _]]; [lia|]. apply (Step_wrap (fun q => R (RPtr q))).
+    pose proof (Step_number_array (fun v : dbl => v) S l c Hge Hlen) as H. by rewrite list_fmap_id in H.
+  - (* cJSON_CreateStringArray *)
+    unfold spec_bulk. destruct l as [l|]; cbn [pre_bulk] in *.
+    2:{ apply (Step_wrap (fun q => R (RPtr q))). apply Step_same. intros h _. by apply create_array_of_refused; right. }
+    destruct (Z.ltb_spec c 0) as [Hlt|Hge]; cbn [fst snd].
+    { apply (Step_wrap (fun q => R (RPtr q))). apply Step_same. intros h _. by apply create_array_of_refused; left. }
+    destruct Hpre as [?|[Hlen Hok]]; [lia|]. apply (Step_wrap (fun q => R (RPtr q))).
+    by apply Step_string_array.
 Qed.
 
 (** * histories *)
@@ -317,7 +373,7 @@ Definition ref_targetb (S : astate2) (i : ptr) : bool :=
   | Some y => match find_tree y (a_forest S) with Some _ => true | None => false end
   end.
 Definition pre_createdb (S : astate2) (k : created) : bool :=
-  match k with KString s | KRaw s => name_okb S s | _ => true end.
+  match k with KString s | KRaw s => is_none s || name_okb S s | _ => true end.
 Definition pre_add_or_deleteb (S1 : astate2) (item object name : ptr) : bool :=
   pre_ok2b S1 (OAddObj object name item false) &&
   (res_bool (s2 S1 (OAddObj object name item false)).2 ||
@@ -341,11 +397,17 @@ Definition pre_replace_keyb (S : astate2) (object name replacement : ptr) : bool
   | _, _ => false
   end.
 
+Definition pre_bulkb {A} (arg : option (list A)) (count : Z) (P : list A -> bool) : bool :=
+  match arg with
+  | None => true
+  | Some l => (count <? 0) || ((Z.to_nat count <=? length l)%nat && P l)
+  end.
+
 Definition pre_ok3b (S : astate2) (o : op3) : bool :=
   match o with
   | O2 o => pre_ok2b S o
   | OCreateNumber _ | OCreateStringReference _ | OCreateObjectReference _ | OCreateArrayReference _ => true
-  | OCreateString s | OCreateRaw s => name_okb S s
+  | OCreateString s | OCreateRaw s => is_none s || name_okb S s
   | OAddItemReferenceToArray a i =>
       is_none a || (ref_targetb S i && pre_ok2b (spec_create_ref S i).1 (OArr (OAdd a (spec_create_ref S i).2)))
   | OAddItemReferenceToObject ob n i =>
@@ -356,6 +418,9 @@ Definition pre_ok3b (S : astate2) (o : op3) : bool :=
   | OSetValuestring x v => pre_set_valuestringb S x v
   | OAddToObject k ob n => pre_createdb S k && pre_add_or_deleteb (spec_created S k).1 (spec_created S k).2 ob n
   | OHasObjectItem ob n => pre_ok2b S (OGetKey ob n false)
+  | OCreateIntArray l c => pre_bulkb l c (fun _ => true)
+  | OCreateFloatArray l c | OCreateDoubleArray l c => pre_bulkb l c (fun _ => true)
+  | OCreateStringArray l c => pre_bulkb l c (fun strs => forallb (name_okb S) (take (Z.to_nat c) strs))
   end.
 
 Lemma is_none_true {A} (o : option A) : is_none o = true -> o = None.
@@ -372,10 +437,20 @@ Proof.
   split; [by apply pre_ok2b_sound|]. intros E. rewrite E in H2. by apply pre_ok2b_sound.
 Qed.
 
+Lemma opt_name_okb_sound S s : is_none s || name_okb S s = true -> s = None \/ name_ok S s.
+Proof. intros H. apply orb_true_iff in H as [H|H]; [left; by apply is_none_true|right; by apply name_okb_sound]. Qed.
+Lemma pre_bulkb_sound {A} (arg : option (list A)) count (Pb : list A -> bool) (P : list A -> Prop) :
+  (forall l, Pb l = true -> P l) -> pre_bulkb arg count Pb = true -> pre_bulk arg count P.
+Proof.
+  intros HP H. destruct arg as [l|]; [|done]. cbn in *. apply orb_true_iff in H as [H|H]; [left; by apply Z.ltb_lt|].
+  right. apply andb_true_iff in H as [H1 H2]. split; [by apply Nat.leb_le|by apply HP].
+Qed.
+
 Lemma pre_ok3b_sound S o : pre_ok3b S o = true -> pre_ok3 S o.
 Proof.
-  destruct o as [o|n|s|s|s|c|c|a i|ob n i|ob n r cs|x n|x z|x b|x v|k ob n|ob n|x|x]; cbn [pre_ok3b pre_ok3]; intros H;
-    try done; try (by apply name_okb_sound); try (by apply ref_targetb_sound); try (by apply pre_ok2b_sound).
+  destruct o as [o|n|s|s|s|c|c|a i|ob n i|ob n r cs|x n|x z|x b|x v|k ob n|ob n|x|x|l c|l c|l c|l c]; cbn [pre_ok3b pre_ok3]; intros H;
+    try done; try (by apply opt_name_okb_sound); try (by apply ref_targetb_sound); try (by apply pre_ok2b_sound);
+    try (by apply (pre_bulkb_sound _ _ _ _ (fun _ _ => I) H)).
   - apply orb_true_iff in H as [H|H]; [left; by apply is_none_true|right].
     apply andb_true_iff in H as [H1 H2]. split; [by apply ref_targetb_sound|by apply pre_ok2b_sound].
   - apply orb_true_iff in H as [H|H]; [apply orb_true_iff in H as [H|H]; [left|right; left]; by apply is_none_true|].
@@ -393,7 +468,10 @@ Proof.
       apply orb_true_iff in H as [H|H]; [left; by apply negb_true_iff|right; by left].
     + right. apply andb_true_iff in H as [H1 H2]. split; by apply name_okb_sound.
   - apply andb_true_iff in H as [H1 H2]. split; [|by apply pre_add_or_deleteb_sound].
-    destruct k; try done; by apply name_okb_sound.
+    destruct k; try done; by apply opt_name_okb_sound.
+  - refine (pre_bulkb_sound _ _ _ _ _ H). intros strs Hf k q Hk Hq.
+    apply name_okb_sound. rewrite forallb_forall in Hf. apply Hf. apply elem_of_list_In.
+    apply (elem_of_list_lookup_2 _ k). by rewrite lookup_take.
 Qed.
 
 Fixpoint pre_ok_all3b (S : astate2) (ops : list op3) : bool :=
